@@ -48,6 +48,7 @@ type ConnSpec struct {
 type ReloadSpec struct {
 	AtMs    int    `json:"atMs"`    // ms after the clients were started
 	Variant string `json:"variant"` // valid | invalid | incompatible
+	Burst   int    `json:"burst,omitempty"` // real-signal mode only: this many SIGHUPs a few ms apart instead of one (signals arriving while a reload runs)
 }
 
 // ReloadObs is what was observed around one reload.
@@ -55,6 +56,7 @@ type ReloadObs struct {
 	Gen        int
 	Variant    string
 	Start, End time.Time
+	Burst      int     // number of signals sent for this reload (real-signal mode; 0/1 = one)
 	OK, Failed float64 // increase of slogagent_reloads_total{status=success|failure} across the call
 	QueuesWithFiles int // queue directories that held chunk files right after the reload returned
 	Orphans    []string // queue directories that held chunk files right after the reload returned and for which the new pipeline set has no pipeline
@@ -375,7 +377,7 @@ func Run(sc Scenario) *Outcome {
 
 // RealSighup, if set, replaces the direct call of the reload hook: it must make a real SIGHUP reach this process and
 // return when the total of slogagent_reloads_total has grown (total is a function that reads it).
-var RealSighup func(total func() float64)
+var RealSighup func(burst int, total func() float64)
 
 // ScenarioBudget bounds one scenario (normal scenarios take 0.1-3 s).
 var ScenarioBudget = 150 * time.Second
@@ -467,11 +469,14 @@ func runScenario(sc Scenario) *Outcome {
 					}
 					_ = os.WriteFile(confPath, []byte(configText(sc, filepath.Join(root, "buf"), addrs, rs.Variant)), 0o644)
 					before := vh.Gather(prometheus.DefaultGatherer)
-					ro := ReloadObs{Gen: gi, Variant: rs.Variant, Start: time.Now()}
+					ro := ReloadObs{Gen: gi, Variant: rs.Variant, Burst: rs.Burst, Start: time.Now()}
 					trigger := ag.reload
 					if RealSighup != nil {
 						// child-process mode: the parent delivers a real SIGHUP; wait until the handler has finished a reload
-						trigger = func() { RealSighup(func() float64 { return vh.Gather(prometheus.DefaultGatherer).Sum("slogagent_reloads_total") }) }
+						burst := max(1, rs.Burst)
+						trigger = func() {
+							RealSighup(burst, func() float64 { return vh.Gather(prometheus.DefaultGatherer).Sum("slogagent_reloads_total") })
+						}
 					}
 					if f := vh.Protect(trigger); f != nil { // in the agent this is the SIGHUP goroutine: the process dies
 						f.Key = "reload:" + f.Key
